@@ -71,7 +71,51 @@ def process_harness(ctx, res, pkg_rel, max_replay_per_driver=2, order_free=None)
     return new, known, len(cases), mismatches, details
 
 
-def finish(ctx, res, level, new, known, replayed, mismatches, coverage_extra, assumptions, floors=None):
+def self_validate(ctx, res, impl_tree=None, harness_pkg=None, order_free=None, max_pkgs=3, per_pkg=10):
+    """Translator self-validation: the concrete logs the engine predicts for sampled decided paths
+    (a model of the final path condition) must be what the natively compiled real code prints
+    for the same nondet vector. Returns (validated, mismatches)."""
+    by_pkg = {}
+    for d in res["drivers"]:
+        if d["status"] != "holds" or not d.get("samples"):
+            continue
+        if order_free and re.search(order_free, d["name"]):
+            continue
+        smp = d["samples"][0]
+        if not smp.get("logs"):
+            continue
+        if harness_pkg:
+            pkg_rel = harness_pkg
+        else:
+            pkg_rel = "%s/%s" % (impl_tree, d["name"].rsplit(".", 1)[0].split("/")[-1])
+        by_pkg.setdefault(pkg_rel, []).append((d["name"].split(".")[-1], smp))
+    validated, mism = 0, 0
+    pkgs = sorted(by_pkg)[:max_pkgs] if ctx.tier == "quick" else sorted(by_pkg)[:max_pkgs * 3]
+    for pkg_rel in pkgs:
+        cases = by_pkg[pkg_rel][:per_pkg]
+        nat, _ = runner.native_replay(ctx, pkg_rel, [(fn, fn, smp["model"]) for fn, smp in cases])
+        for fn, smp in cases:
+            n = nat.get(fn)
+            if n is None:
+                continue
+            if harness_pkg:
+                ok = all(events_equal(smp["logs"].get(l), n["logs"].get(l)) for l in set(smp["logs"]) | set(n["logs"])) and not n["fails"]
+            else:
+                ok = events_equal(smp["logs"].get("1"), n["logs"].get("0"))
+            validated += 1
+            if not ok:
+                mism += 1
+                print("ERROR engine-mismatch property=%s driver=%s: the natively compiled code prints a different log than the engine predicted for the same inputs" % (ctx.pid, fn))
+                print("  engine:", json.dumps(smp["logs"])[:600])
+                print("  native:", json.dumps(n)[:600])
+    return validated, mism
+
+
+def finish(ctx, res, level, new, known, replayed, mismatches, coverage_extra, assumptions, floors=None, sv=None):
+    sv_count = 0
+    if sv:
+        sv_count, sv_mism = self_validate(ctx, res, **sv)
+        mismatches += sv_mism
     agg = runner.summarize_engine(res)
     samples = []
     for d in res["drivers"]:
@@ -82,7 +126,7 @@ def finish(ctx, res, level, new, known, replayed, mismatches, coverage_extra, as
     cov = {}
     if level == "model_checking":
         cov.update({"states": agg["ssa_instructions_executed"], "transitions": agg["branch_decisions"],
-                    "traces_validated_against_impl": replayed})
+                    "traces_validated_against_impl": replayed + sv_count})
     elif level == "translation_validation":
         cov.update({"programs": coverage_extra.get("programs", agg["drivers"]), "disagreements_checked": replayed})
     cov["samples"] = samples or [{"note": "no completed path"}]
@@ -92,6 +136,7 @@ def finish(ctx, res, level, new, known, replayed, mismatches, coverage_extra, as
     cov["engine_limits"] = res.get("limits")
     cov["known_findings_matched"] = known
     cov["engine_native_mismatches"] = mismatches
+    cov["native_cross_checked_paths"] = sv_count
     cov["skipped_packages"] = res.get("skipped_pairs") or {}
     cov.update(coverage_extra)
     runner.write_evidence(ctx, level, cov, COMMON_ASSUMPTIONS + assumptions, new)
@@ -151,7 +196,7 @@ def plan_C09(ctx):
     }
     return finish(ctx, res, "model_checking", new, known, replayed, mism, extra,
                   ["specification automaton in ws/rt/c09/c09.go (spec.advance/moveNext/send) is the reading of the property text"],
-                  floors={"paths_completed": ctx.q(10000, 100000)})
+                  floors={"paths_completed": ctx.q(10000, 100000)}, sv={"harness_pkg": "rt/c09"})
 
 
 CLAIMED["C09"] = plan_C09
@@ -198,7 +243,7 @@ def plan_C08(ctx):
     return finish(ctx, res, "model_checking", new, known, replayed, mism, extra,
                   ["reference interpreter ws/rt/c08/c08.go (ref.exec) is the reading of 'structured loops with break/continue/return'",
                    "a top-level Break/Continue ends the generator with the zero result (what Start's final continuation does); not constrained by the property text"],
-                  floors={"paths_completed": ctx.q(20000, 200000)})
+                  floors={"paths_completed": ctx.q(20000, 200000)}, sv={"harness_pkg": "rt/c08"})
 
 
 CLAIMED["C08"] = plan_C08
@@ -248,7 +293,7 @@ def plan_C10(ctx):
                   ["string range, []rune(s) and utf8.DecodeRuneInString are modelled by one engine decoder that mirrors unicode/utf8 (validated natively against the real package in the engine self-test)",
                    "reflect.ValueOf/MapRange/MapIter.Next/Key/Value/Value.Interface are modelled with range semantics over an insertion-ordered map",
                    "integer range reference is the spec reading: i = 0..n-1, nothing for n <= 0"],
-                  floors={"paths_completed": ctx.q(1000, 10000)})
+                  floors={"paths_completed": ctx.q(1000, 10000)}, sv={"harness_pkg": "rt/c10", "order_free": r"Drive_map_"})
 
 
 CLAIMED["C10"] = plan_C10
@@ -282,7 +327,7 @@ def plan_C17(ctx):
     }
     return finish(ctx, res, "model_checking", new, known, replayed, mism, extra,
                   ["verifrt.Depth() = interpreter frame depth (sum over the resumer chain); Go has no tail calls, so frame count is a faithful proxy for stack growth up to a constant factor"],
-                  floors={"paths_completed": ctx.q(100, 1000)})
+                  floors={"paths_completed": ctx.q(100, 1000)}, sv={"harness_pkg": "rt/c17"})
 
 
 CLAIMED["C17"] = plan_C17
@@ -479,7 +524,8 @@ def corpus_check(ctx, fam, build, K, extra_adv, level_extra, assumptions, floors
         "details": details[:30],
     }
     extra.update(level_extra)
-    return finish(ctx, res, "translation_validation", new, known, replayed, mism, extra, assumptions, floors)
+    return finish(ctx, res, "translation_validation", new, known, replayed, mism, extra, assumptions, floors,
+                  sv={"impl_tree": "out", "order_free": r"Gr_map"})
 
 
 REF_ASSUMPTION = "reference = the source file itself executed from its SSA with the coroutine semantics of DESIGN §2 for Yield/YieldFrom/MoveNext/Current/range-over-Iter (engine intrinsics, no code shared with rewriter or seq)"
